@@ -123,11 +123,22 @@ func VerifC13Stream() {
 	sizes := map[string]int{"f": sizeF, "g": 3}
 	fills := map[string]int{"f": 5, "g": 9}
 	totalBlocks := 1 + (sizeF+511)/512 + 1 + 1
+	dup := verifParam("DUP") != 0
+	if dup {
+		// the name f occurs a second time with other contents: a later entry replaces an earlier one. The second
+		// copy is larger than the small buffer, so it is written by the reader itself (schedules stay forceable:
+		// only one background writer per name)
+		verifTarAdd("f", int('0'), 0644, 153601, 11)
+		totalBlocks += 1 + 301
+	}
 	cut, failAt := -1, -1
 	st := &c13State{faultFrom: -1}
 	kind := verifChoice("disturbance", 6)
 	if bigMode {
 		verifAssume(kind == 0 || kind == 1 || kind == 2 || kind == 5)
+	}
+	if dup {
+		verifAssume(kind <= 2) // none, truncated stream, reader error (inside the second copy)
 	}
 	if k := verifParam("ONLYKIND"); k != 0 {
 		verifAssume(kind == k-1) // a variant of the harness that spends its schedule budget on one disturbance
@@ -137,6 +148,10 @@ func VerifC13Stream() {
 	pickBlock := func() int {
 		// representative cut points: before/inside/after each header and data area
 		pts := []int{0, 1, 2, (sizeF+511)/512 + 1, (sizeF+511)/512 + 2, totalBlocks - 1}
+		if dup {
+			// inside the second copy of f: after its header, after its first and second data block
+			pts = []int{totalBlocks - 301, totalBlocks - 150, totalBlocks - 1}
+		}
 		if bigMode {
 			pts = []int{301, (sizeF+511)/512 + 1} // inside the second write step of the large entry; after it
 		}
@@ -207,10 +222,14 @@ func VerifC13Stream() {
 		if err != nil || !known {
 			return
 		}
+		fill := fills[name]
+		if dup && name == "f" && len(data) > 3 {
+			size, fill = 153601, 11 // the second copy, complete
+		}
 		verifAssert(len(data) == size, when+": Open succeeded with missing or partial bytes")
 		for _, pos := range c13Samples {
 			if pos < len(data) {
-				verifAssert(data[pos] == c13Content(fills[name], pos), when+": Open succeeded with wrong bytes")
+				verifAssert(data[pos] == c13Content(fill, pos), when+": Open succeeded with wrong bytes")
 			}
 		}
 	}
